@@ -23,7 +23,12 @@ func repoDir() string {
 	return "/repo"
 }
 
-var HarnessDir = "/verif/harness"
+var HarnessDir = func() string {
+	if d := os.Getenv("SYMGO_HARNESS"); d != "" {
+		return d // development only (bisecting harness changes); registered commands never set it
+	}
+	return "/verif/harness"
+}()
 
 // harnessFiles lists the Go files of the harness directory (all are injected into package analysis).
 func harnessFiles() []string {
